@@ -11,6 +11,7 @@ pub mod c04;
 pub mod c05;
 pub mod c06;
 pub mod c07;
+pub mod c08;
 pub mod c09;
 pub mod c10;
 pub mod c11;
@@ -51,7 +52,7 @@ pub fn all() -> Vec<Prop> {
 }
 
 fn base() -> Vec<Prop> {
-    vec![c01::PROP, c02::PROP, c03::PROP, c05::PROP, c06::PROP, c07::PROP, c09::PROP, c10::PROP, c11::PROP, c12::PROP, c13::PROP, c15::PROP, c16::PROP, c17::PROP, c19::PROP, c20::PROP]
+    vec![c01::PROP, c02::PROP, c03::PROP, c05::PROP, c06::PROP, c07::PROP, c08::PROP, c09::PROP, c10::PROP, c11::PROP, c12::PROP, c13::PROP, c15::PROP, c16::PROP, c17::PROP, c19::PROP, c20::PROP]
 }
 
 pub fn find(id: &str) -> Option<Prop> {
